@@ -230,6 +230,8 @@ class Instance:
     @property
     def config_name(self):
         stem = self.fname.split('/')[-1]  # the config name is the file name without directories and extension
+        if getattr(self, 'name_prefix', None):
+            stem = self.name_prefix + stem    # (a MultiChain member's root config is given a distinct name)
         return f'{stem}#{self.part}' if self.part else stem
 
 
@@ -407,12 +409,14 @@ def resolve_input(query, names):
     raise ModelError('ambiguous-input', f'{query} -> {cands}')
 
 
-def build_tasks(case, cfgdir='<cfgdir>', parameter_mode=True):
+def build_tasks(case, cfgdir='<cfgdir>', parameter_mode=True, root_name_prefix=None):
     """-> {fullname: MTask}; raises ModelError when construction must fail."""
     program = case['program']
     ctx = merged_context(case)
     gv = global_vars_of(case, cfgdir)
     insts = compose(case)
+    if root_name_prefix and insts:
+        insts[0].name_prefix = root_name_prefix
     tasks = {}
     for inst in insts:
         inst.data = effective_data(case, inst, ctx, gv)
